@@ -178,6 +178,51 @@ def f_join_states(rng):
     return "join-states", src, None, 5
 
 
+def f_many_waiters(rng):
+    """several threads blocked on the SAME event (join of one thread / one mutex / one condition variable that is broadcast)
+    while nothing else is runnable: every one of them must be resumed, whatever the state of the run queue at that moment"""
+    n = rng.range(2, 5)
+    ids = " ".join(map(str, range(1, n + 1)))
+    pre = rng.choice(["(thread-sleep! 0.01)", "(thread-sleep! 0.002)", "(let spin ((j 0)) (if (< j %d) (spin (+ j 1))))" % rng.choice([10, 300, 3000]), "(thread-yield!)", "(begin)"])
+    late_start = rng.chance(1, 2)
+    scen = rng.choice(["join", "join", "mutex", "broadcast"])
+    if scen == "join":
+        src = """
+(define target (make-thread (lambda () %s 'done)))
+%s
+(define js (map (lambda (i) (thread-start! (make-thread (lambda () (list i (thread-join! target)))))) '(%s)))
+%s
+(write (map thread-join! js))
+(write (thread-join! target))
+""" % (pre, "" if late_start else "(thread-start! target)", ids, "(thread-yield!) (thread-start! target)" if late_start else "")
+        exp = "(" + " ".join("(%d done)" % i for i in range(1, n + 1)) + ")done"
+    elif scen == "mutex":
+        src = """
+(define m (make-mutex)) (define count 0)
+(mutex-lock! m)
+(define ws (map (lambda (i) (thread-start! (make-thread (lambda () (mutex-lock! m) (set! count (+ count 1)) (mutex-unlock! m) i)))) '(%s)))
+(thread-yield!)
+%s
+(mutex-unlock! m)
+(write (map thread-join! ws)) (write count) (write (mutex-state m))
+""" % (ids, pre)
+        exp = "(" + ids + ")%dnot-abandoned" % n
+    else:
+        src = """
+(define m (make-mutex)) (define cv (make-condition-variable)) (define go #f) (define woke 0)
+(define ws (map (lambda (i) (thread-start! (make-thread (lambda ()
+   (mutex-lock! m)
+   (let wait () (if (not go) (begin (mutex-unlock! m cv) (mutex-lock! m) (wait))))
+   (set! woke (+ woke 1)) (mutex-unlock! m) i)))) '(%s)))
+(thread-yield!)
+%s
+(mutex-lock! m) (set! go #t) (condition-variable-broadcast! cv) (mutex-unlock! m)
+(write (map thread-join! ws)) (write woke)
+""" % (ids, pre)
+        exp = "(" + ids + ")%d" % n
+    return "many-waiters-" + scen, src, exp, n + 2
+
+
 def f_locals(rng):
     t = rng.range(2, 3)
     bodies = []
@@ -342,7 +387,7 @@ def f_callbacks(rng):
     return "callbacks", src, exp, t + 1
 
 
-FAMILIES = [(f_callbacks, 1), (f_mutex_counter, 4), (f_two_locks, 2), (f_condvar_buffer, 4), (f_fork_join, 3), (f_join_states, 2), (f_locals, 3), (f_timed, 4), (f_timed_race, 3)]
+FAMILIES = [(f_callbacks, 1), (f_mutex_counter, 4), (f_two_locks, 2), (f_condvar_buffer, 4), (f_fork_join, 3), (f_join_states, 2), (f_locals, 3), (f_timed, 4), (f_timed_race, 3), (f_many_waiters, 3)]
 
 
 def gen_sched(rng, timed, tier="quick", index=0):
